@@ -65,6 +65,21 @@ void *verif_alloc(size_t n);
 #define ALLOC(n) verif_alloc(n)
 static inline void *verif_alloc(size_t n) { void *p = malloc(n); __CPROVER_assume(p != NULL); return p; }
 #define FRAME(...) __CPROVER_assigns(__VA_ARGS__)
+#ifdef VERIF_PLAIN
+/* harness-encoded contract (Hoare triple checked by plain CBMC, no DFCC instrumentation): used where
+ * DFCC's write-set instrumentation of the real libc byte movers does not terminate (bounded content
+ * units) and for linked shapes.  Same PRE/POST text; OLD() snapshots hoisted by vp.py. */
+#undef CONTRACT
+#undef OLD
+#undef RET
+#undef CALLV
+#undef CALLR
+#define CONTRACT(ret, fn, params, pre, post, frame)
+#define OLD(e) __VERIF_OLD(e)
+#define RET __verif_ret
+#define CALLV(call, pre, post) { ASSUME(pre); __VERIF_SNAP_HERE; call; ASSERT(post, "postcondition " #post); __VERIF_SNAP_END; }
+#define CALLR(type, call, pre, post) type __verif_ret; { ASSUME(pre); __VERIF_SNAP_HERE; __verif_ret = call; ASSERT(post, "postcondition " #post); __VERIF_SNAP_END; }
+#endif
 #endif
 
 #define RETV __verif_ret
